@@ -508,8 +508,8 @@ func (c *ctx) rpcQuery(r *lib.RNG, g *lib.ChainGen, version string, chain rpcCha
 		}
 		hf := hashFnOf(hash)
 		b.checks = append(b.checks,
-			check{line: "vL 0011 " + rootHex + " " + kb + p.toks(hf), truth: fhex(want), honest: true, independent: true, sig: sig, replay: mk},
-			check{line: "v2 0011 " + rootHex + " " + kb + p.toks(hf), truth: fhex(want), honest: true, independent: true, sig: sig, replay: mk},
+			check{line: "vL 00111 " + rootHex + " " + kb + p.toks(hf), truth: fhex(want), honest: true, independent: true, sig: sig, replay: mk},
+			check{line: "v2 00111 " + rootHex + " " + kb + p.toks(hf), truth: fhex(want), honest: true, independent: true, sig: sig, replay: mk},
 		)
 		// correspondence with the real legacy verifier; its rejection of the empty trie is the known
 		// finding reported by the trie section, not repeated here
